@@ -72,7 +72,7 @@ def pats_for(N, R, rng, M=None, tries=200, target=None):
         best = gen_tt_pattern(N, R, rng, M=M, dense_slices=True)
     return [[list(q) for q in pk] for pk in best]
 
-THOROUGH_SEEDS = 6
+THOROUGH_SEEDS = 4
 
 
 def cases(tier, seed):
